@@ -500,7 +500,12 @@ def main():
     checked += n
     for b in bad[:4]:
         chk.violation('%s export of %r: %s' % (b['kind'], b['grammar'][:50], b['detail']), b)
-    missing, expected = transitive_import_export()
+    try:
+        missing, expected = transitive_import_export()
+    except DotError as e:
+        missing, expected = {}, {}
+        chk.violation('dot export of a grammar in three files (a.tx imports b.tx imports c.tx): invalid DOT: %s' % e,
+                      {'transitive_import_export': True})
     checked += 2
     for kind, names in missing.items():
         if not names:
@@ -632,7 +637,10 @@ def replay(data):
         r = judge_model(data['slot'], data['value'])
         return bool(r), r
     if data.get('transitive_import_export'):
-        missing, expected = transitive_import_export()
+        try:
+            missing, expected = transitive_import_export()
+        except DotError as e:
+            return True, 'invalid DOT: %s' % e
         return any(missing.values()), missing
     n, bad = metamodel_checks()
     return bool(bad), bad[:2]
